@@ -26,6 +26,9 @@ func (ft *ftrans) stmts(list []ast.Stmt, e *env, k cont) {
 		case *ast.SwitchStmt:
 			ft.switchStmt(s, rest, e, k)
 			return
+		case *ast.ForStmt:
+			ft.loopStmt(s, rest, e, k)
+			return
 		case *ast.ReturnStmt:
 			if len(rest) != 0 {
 				ft.p.failAt(rest[0], "%s: statement after return", ft.sum.key)
@@ -162,6 +165,7 @@ func (ft *ftrans) joinIf(s *ast.IfStmt, A, B []ast.Stmt, hasElse bool, e *env) {
 	}
 	for _, t := range targets {
 		if t.j < 0 {
+			e.st[t.v].sinit = ends[0].st[t.v].sinit || ends[1].st[t.v].sinit
 			continue
 		}
 		st := e.st[t.v]
@@ -184,6 +188,7 @@ func (ft *ftrans) switchStmt(s *ast.SwitchStmt, rest []ast.Stmt, e *env, k cont)
 	if tag == nil || (tag.typ != "uint8" && tag.typ != "uint64") {
 		p.failAt(s, "%s: switch tag must be an integer variable", ft.sum.key)
 	}
+	ft.noteScalarRead(e, tag)
 	var def *ast.CaseClause
 	n := 0
 	for _, c := range s.Body.List {
